@@ -26,7 +26,15 @@ RULE = (
     "log-likelihood of the guess; data (values and dtype) and guess unchanged; integer-typed data gives the same model "
     "and objective as its float64 image with the same layout.  state cell: sequences of 2..3 calls (repeat / other "
     "printing options / another call or the mirrored data in between / defaults around explicit options) - the "
-    "repeated call reproduces the first bit for bit.  Non-trivial: data has a zero and a count >= 2, rank >= 2."
+    "repeated call reproduces the first bit for bit; the data object edited in place by item assignment between two "
+    "calls (result = that for the data as it stands, and bit-identical to a freshly constructed tensor with the same "
+    "content and layout); the first result overwritten before the call is repeated.  early-exit cells: stoptime 0, "
+    "negative, 1e-300 .. 0.1 s with maxiters 1..1000, stoptol 0: whatever number n of sweeps fits into the budget, "
+    "every per-iteration output has n non-negative entries, objective / non-negativity / likelihood clauses hold, and "
+    "a run with maxiters = n and no time limit reproduces model, objective and histories bit for bit.  large cells: a "
+    "few problems with 60000 cells and 1e4..3e4 stored counts (block edges 16384 / 16385) per run through the same "
+    "body.  guesses also with entries 1e-30 / 1e-12 (not zeros) and identity-like factors (exact, or perturbed by "
+    "1e-9..1e-4).  Non-trivial: data has a zero and a count >= 2, rank >= 2 (early-exit: run ended before maxiters)."
 )
 ASSUMPTIONS = [
     "objective compared within 1e-9 x (sum |x log m| + sum m) (+ exact match for -inf); pyttb evaluates sum m "
@@ -35,7 +43,9 @@ ASSUMPTIONS = [
     "for pdnr/pqnr and a guess with all-zero rows the baseline is the documented perturbed guess (1e-8 in the first "
     "column of those rows) when that is less likely; the guess is read back from the object handed in (init='random': "
     "from the returned guess)",
-    "maxiters >= 1; stoptime only at values far beyond any run time (no wall-clock influence); epsDivZero in "
+    "maxiters >= 1; stoptime far beyond any run time in all cells but early-exit, where only clauses that hold for every "
+    "number of sweeps performed are asserted (a run reporting zero sweeps would be accepted if its model denotes the "
+    "guess); epsDivZero in "
     "[1e-16, 1e-3] (1e-300 makes x/eps overflow: not an admissible safeguard); kappa in [1e-10, 0.1], kappatol in "
     "[1e-16, 1e-3] (MU's slackness offset is not a descent step: kappa = 1 with kappatol = 0.1 can end below the guess)",
     "data has at least one positive count; N >= 2 (tt_loglikelihood unfolds along mode 1)",
@@ -43,6 +53,11 @@ ASSUMPTIONS = [
     "the 1e-9 objective tolerance would not be justified",
     "a dense tensor grown by assignment and a sparse tensor grown by assignment hold float64 values whatever they "
     "started from (pyttb converts), so integer dtypes are combined with the other provenance states only",
+    "MU with a guess of the tiny-entry class that puts less than epsDivZero on a positive count: the likelihood "
+    "ordering is not asserted (the update divides by max(model value, epsDivZero): the documented safeguard, not an EM step)",
+    "tiny guess entries are 1e-30 / 1e-12: small enough to be below every absolute tolerance, large enough for every "
+    "product the algorithms form to stay a normal number (with 1e-290 the L1 normalisation underflows a weight to 0: "
+    "a floating-point range limit, not judged)",
     "model-independent-of-data-dtype: 1e-9 relative per factor matrix; the float64 image is built by the same route "
     "and compared only when its stored layout is identical (same operations in the same order)",
 ]
@@ -101,10 +116,21 @@ def _apr_case(draw, tier, alg, holder):
     A = A * dscale
     dprov = draw(st.sampled_from(DENSE_PROV if holder == "dense" else SPARSE_PROV))
     rank = draw(st.sampled_from([1, 2, 2, 3, 3, 4]))
-    gclass = draw(st.sampled_from(["positive", "positive", "some-zeros", "zero-row", "random"]))
+    gclass = draw(st.sampled_from(["positive", "positive", "positive", "some-zeros", "some-zeros", "zero-row", "zero-row",
+                                   "random", "random", "some-tiny", "identity-like"]))
     pv = st.one_of(st.sampled_from([0.5, 1.0]), st.floats(0.05, 2.0), st.floats(0.05, 2.0))
     fv = pv if gclass != "some-zeros" else st.one_of(st.just(0.0), pv, pv, pv, pv, pv)
+    if gclass == "some-tiny":
+        # entries next to zero that are NOT zeros: far below every absolute tolerance, yet far enough from the
+        # underflow threshold for every product of entries and weights the algorithms form to stay a normal number
+        tiny = draw(st.sampled_from([[1e-30], [1e-12], [1e-12, 0.0]]))
+        fv = st.one_of(st.sampled_from(tiny), pv, pv, pv)
     factors = [draw(st.lists(st.lists(fv, min_size=rank, max_size=rank), min_size=s, max_size=s)) for s in shape]
+    if gclass == "identity-like":
+        # every factor is the leading block of an identity matrix, exactly or up to 1e-9 .. 1e-4 in every entry
+        eps = draw(st.sampled_from([0.0, 1e-9, 1e-6, 1e-4]))
+        factors = [[[(1.0 if i == j else 0.0) + (eps * draw(st.floats(0.01, 1.0)) if eps else 0.0) for j in range(rank)]
+                    for i in range(s)] for s in shape]
     if gclass == "zero-row":  # an all-zero row in one factor
         k = draw(st.integers(0, N - 1))
         factors[k][draw(st.integers(0, shape[k] - 1))] = [0.0] * rank
@@ -360,7 +386,7 @@ def _per_iteration_lengths(info):
     return out
 
 
-def _check_result(ctx, case, A, M, info, maxiters, l0, s0):
+def _check_result(ctx, case, A, M, info, maxiters, l0, s0, min_len=1):
     shape = tuple(case["shape"])
     ctx.check(tuple(M.shape) == shape and M.ncomponents == case["rank"], "model-rank-and-shape",
               f"{tuple(M.shape)} R={M.ncomponents}")
@@ -386,14 +412,28 @@ def _check_result(ctx, case, A, M, info, maxiters, l0, s0):
                   f"{obj!r} vs {want!r} (scale {scale:.3g})")
     kkt = np.ravel(np.asarray(info["kktViolations"], dtype=float))
     ctx.check(bool(np.all(kkt >= 0)), "kkt-violations-nonnegative", kkt)
-    ctx.check(1 <= len(kkt) <= maxiters, "iteration-limit-respected", f"{len(kkt)} entries, maxiters {maxiters}")
+    ctx.check(min_len <= len(kkt) <= maxiters, "iteration-limit-respected", f"{len(kkt)} entries, maxiters {maxiters}")
     lens = _per_iteration_lengths(info)
     ctx.check(len(set(lens.values())) == 1, "one-entry-per-outer-iteration-in-every-output", lens)
+    for key in ("nInnerIters", "nViolations", "fnEvals", "nZeros"):
+        if key in info:  # counters of sweeps that were performed (clock readings are not judged)
+            v = np.ravel(np.asarray(info[key], dtype=float))
+            ctx.check(bool(np.all(v >= 0)), "per-iteration-outputs-nonnegative", f"{key}: {v}")
     # at least as likely as the guess
-    if np.isfinite(l0):
+    if case["alg"] == "mu" and case.get("gclass") == "some-tiny" and _guess_below_eps_at_a_count(case, A):
+        # MU divides by max(model value, epsDivZero): where the guess puts less than epsDivZero on a positive count the
+        # update is the documented safeguarded step, not an EM step, and need not increase the likelihood
+        ctx.label("mu-guess-below-epsDivZero-at-a-count")
+    elif np.isfinite(l0):
         ok = (want >= l0 - 1e-9 * (s0 + (scale if np.isfinite(scale) else 0.0))) if not np.isnan(want) else False
         ctx.check(ok, "at-least-as-likely-as-guess", f"result {want!r} < guess {l0!r}")
     return len(kkt)
+
+
+def _guess_below_eps_at_a_count(case, A):
+    fm = [np.array(f, dtype=float).reshape(s, case["rank"]) for f, s in zip(case["factors"], case["shape"])]
+    M = ref.den_kruskal(np.array(case["weights"], dtype=float), fm)
+    return bool(np.any(M[A > 0] < case.get("epsDivZero", 1e-10)))
 
 
 def _guess_baseline(case, A, Minit):
@@ -506,6 +546,124 @@ for _alg, (_q, _t) in {"mu": (200, 4000), "pdnr": (150, 3000), "pqnr": (150, 300
 
 
 # --------------------------------------------------------------------------
+# a few large problems per run: 60000 cells, 1e4 .. 3e4 stored counts (above internal block sizes)
+# --------------------------------------------------------------------------
+
+LARGE_SHAPES = [[40, 50, 30], [30, 40, 50], [16, 15, 25, 10], [60, 20, 50]]  # (few rows: the row subproblems are Python loops)
+
+
+@st.composite
+def _large_case(draw, tier, alg):
+    shape = draw(st.sampled_from(LARGE_SHAPES))
+    holder = draw(st.sampled_from(["sparse", "sparse", "sparse", "dense"]))
+    c = dict(alg=alg, holder=holder, shape=shape, large=True, pattern="mixed", seed=draw(st.integers(0, 2**31 - 1)),
+             nnz=draw(st.sampled_from([10000, 10001, 16384, 16385, 20000, 30000])),
+             stored=draw(st.sampled_from(["sorted", "reverse", "random"])), dtype=draw(st.sampled_from(["float64", "float64", "int64", "uint8"])),
+             dscale=1, dprov=draw(st.sampled_from(["ctor", "ctor", "np-shape", "explicit-zeros", "from-dense", "permuted"] if holder == "sparse"
+                                                  else ["ctor", "ctor-c-order", "from-sparse"])),
+             mperm=list(draw(st.permutations(range(len(shape))))), rank=draw(st.sampled_from([1, 2, 3])),
+             gclass=draw(st.sampled_from(["positive", "some-zeros"])), wkind="unit", gscale=1.0,
+             gprov=draw(st.sampled_from(["ctor", "copy", "normalized"])), np_seed=draw(st.integers(0, 2**31 - 1)))
+    c.update(_option_draw(draw, alg))
+    c["maxiters"] = draw(st.sampled_from([1, 1, 2]))
+    c["maxinneriters"] = draw(st.sampled_from([1, 2, 3]))
+    c["printitn"], c["printinneritn"] = draw(st.sampled_from([0, 0, 1])), 0
+    return c
+
+
+def _expand_large(case):
+    """the ordinary case dict a compact large case stands for (deterministic in the case's seed)"""
+    rs = np.random.RandomState(case["seed"])
+    shape = tuple(case["shape"])
+    n = ref.prod(shape)
+    lin = np.sort(rs.choice(n, size=case["nnz"], replace=False))
+    if case["stored"] == "reverse":
+        lin = lin[::-1]
+    elif case["stored"] == "random":
+        lin = lin[rs.permutation(len(lin))]
+    subs = np.array(np.unravel_index(lin, shape, order="F")).T.reshape(len(lin), len(shape))
+    vals = rs.randint(1, 7, size=len(lin)).astype(float)
+    c = dict(case, subs=subs.tolist(), vals=vals.tolist(), weights=[1.0] * case["rank"])
+    fm = [rs.uniform(0.05, 2.0, size=(m, case["rank"])) for m in shape]
+    if case["gclass"] == "some-zeros":
+        for f in fm:
+            f[rs.uniform(size=f.shape) < 0.15] = 0.0
+    c["factors"] = [f.tolist() for f in fm]
+    if case["holder"] == "sparse" and case["dprov"] == "explicit-zeros":
+        present = set(lin.tolist())
+        z = [int(i) for i in rs.choice(n, size=200, replace=False) if int(i) not in present]
+        c["zsubs"] = np.array(np.unravel_index(np.array(z, dtype=int), shape, order="F")).T.reshape(len(z), len(shape)).tolist()
+    return c
+
+
+def _large_body(ctx, case):
+    ctx.label("large-60000-cells", f"nnz={case['nnz']}", "holder-" + case["holder"])
+    _body(ctx, _expand_large(case))
+
+
+for _alg in ("mu", "pdnr", "pqnr"):
+    cell(f"C11/{_alg}/large", strategy=(lambda a: lambda tier: _large_case(tier, a))(_alg), quick=2, thorough=10,
+         shards=(1, 2))(_large_body)
+
+
+# --------------------------------------------------------------------------
+# runs that end early: time budget spent (stoptime 0, negative, tiny), everything else at its minimum
+# --------------------------------------------------------------------------
+
+STOPTIMES = [0.0, 0.0, -1.0, -1e-3, 1e-300, 1e-9, 1e-7, 1e-5, 1e-4, 1e-3, 3e-3, 3e-3, 1e-2, 1e-2, 3e-2, 0.1]
+
+
+@st.composite
+def _early_exit_case(draw, tier, alg):
+    c = draw(_apr_case(tier, alg, draw(st.sampled_from(["dense", "sparse"]))))
+    c["stoptime"] = draw(st.sampled_from(STOPTIMES))
+    # so that the clock, not convergence, ends most runs: no convergence exit, many sweeps allowed
+    c["stoptol"] = draw(st.sampled_from([0.0, 0.0, 0.0, 1e-14, 1e-4]))
+    c["maxiters"] = draw(st.sampled_from([1, 2, 3, 5, 8, 8, 30, 200, 1000]))
+    c["maxinneriters"] = draw(st.sampled_from([1, 1, 2, 3, 10]))
+    c["printitn"] = draw(st.sampled_from([0, 0, 1]))
+    c["printinneritn"] = 0
+    return c
+
+
+def _early_exit_body(ctx, case):
+    """A run whose wall-clock budget is spent reports what it did and nothing else.  How many sweeps fit into the
+    budget is not asserted (it depends on the machine); asserted is only what holds for every number n of sweeps
+    performed: the per-iteration outputs have n entries each, all non-negative; the objective is the log-likelihood
+    of the returned model; the model is non-negative and at least as likely as the guess; and the n reported sweeps
+    were really performed: a run limited to maxiters = n without a time limit reproduces model, objective and
+    histories bit for bit (n = 0: the model denotes the guess)."""
+    A = _true_array(case)
+    K = case["maxiters"]
+    data, used = _build_data(case)
+    init = _build_guess(case)
+    _common_labels(ctx, case, A, data, used)
+    ctx.label(f"stoptime={case['stoptime']}", "holder-" + case["holder"])
+    M1, G1, info1 = _run(ctx, case, data, init, K, "cp_apr")
+    l0, s0, _ = _guess_baseline(case, A, G1)
+    n = _check_result(ctx, case, A, M1, info1, K, l0, s0, min_len=0)
+    ctx.label("sweeps-reported=" + ("0" if n == 0 else "1" if n == 1 else "2-3" if n <= 3 else ">=4"),
+              "ended-before-maxiters" if n < K else "used-all-iterations")
+    ctx.nt = n < K
+    if n == 0:
+        G = ref.den_kruskal(np.asarray(G1.weights, dtype=float), [np.asarray(f, dtype=float) for f in G1.factor_matrices])
+        R = ref.den_kruskal(np.asarray(M1.weights, dtype=float), [np.asarray(f, dtype=float) for f in M1.factor_matrices])
+        ctx.check(bool(np.all(np.abs(R - G) <= 1e-12 * (np.abs(G) + np.max(np.abs(G), initial=0.0)))),
+                  "no-sweep-reported-model-is-the-guess")
+        return
+    opts = dict(_options(case))
+    opts.pop("stoptime", None)
+    M2, _, info2 = _run(ctx, case, data, init, n, "cp_apr-without-time-limit", options=opts)
+    r1, r2 = _outcome(M1, info1), _outcome(M2, info2)
+    ctx.check(_same_outcome(r1, r2), "reported-sweeps-were-performed", f"{n} reported of {K} allowed: " + _outcome_info(r1, r2))
+
+
+for _alg, (_q, _t) in {"mu": (36, 1200), "pdnr": (30, 1000), "pqnr": (18, 600)}.items():
+    cell(f"C11/{_alg}/early-exit", strategy=(lambda a: lambda tier: _early_exit_case(tier, a))(_alg),
+         quick=_q, thorough=_t, shards=(1, 4))(_early_exit_body)
+
+
+# --------------------------------------------------------------------------
 # state across calls: the k-th call depends only on its own arguments (and the random stream)
 # --------------------------------------------------------------------------
 
@@ -520,7 +678,9 @@ def _sequence_case(draw, tier):
     if alg == "pqnr":  # keep clear of the two open pqnr findings as far as a case can
         c["lbfgsMem"] = 1
     c["variant"] = draw(st.sampled_from(["repeat", "printing", "other-call-between", "other-data-between",
-                                         "other-data-between", "other-data-between", "defaults-around-explicit"]))
+                                         "other-data-between", "other-data-between", "defaults-around-explicit",
+                                         "data-edited-between", "data-edited-between", "result-scribbled-between"]))
+    c["edit_pos"] = draw(st.integers(0, 10**6))
     alg2 = draw(st.sampled_from(["mu", "pdnr"]))
     c["other"] = dict(alg=alg2, **_option_draw(draw, alg2))
     c["other"]["maxiters"] = min(c["other"]["maxiters"], 3)
@@ -582,6 +742,52 @@ def sequence(ctx, case):
             ttb.cp_apr(data, case["rank"], algorithm=case["alg"], init=init, maxiters=k, **base)
         except Exception:  # noqa: BLE001
             ctx.label("call-in-between-raised")
+    elif v == "result-scribbled-between":
+        # what the first call handed back is the caller's: writing into it reaches neither the guess nor the data
+        # (both checked by the next _run) nor a later call
+        for f in M1.factor_matrices:
+            f[...] = 0.125
+        M1.weights[...] = 9.0
+        for key in ("kktViolations", "nInnerIters"):
+            a = i1.get(key)
+            if isinstance(a, np.ndarray) and a.flags.writeable:
+                a[...] = -5.0
+        ctx.check(_same_guess(_snapshot_guess(init), _snapshot_guess(_build_guess(case))) if isinstance(init, ttb.ktensor) else True,
+                  "writing-into-the-result-leaves-the-guess")
+        ctx.check(np.array_equal(ref.den(data), A), "writing-into-the-result-leaves-the-data")
+    elif v == "data-edited-between":
+        # the data object is edited in place (item assignment: one stored count raised, one entry set from the mirror
+        # position) and the same object is decomposed again: the result must be that of the data as it stands now,
+        # and identical to that for a freshly constructed tensor with the same content and layout
+        shape = tuple(case["shape"])
+        try:
+            nzs = np.argwhere(A != 0)
+            s1 = tuple(int(i) for i in nzs[case["edit_pos"] % len(nzs)])
+            data[s1] = float(A[s1]) + 1.0
+            s2 = tuple(int(i) for i in np.unravel_index(case["edit_pos"] % A.size, shape, order="F"))
+            if s2 != s1:
+                data[s2] = float(A[s2]) + 2.0 if A[s2] == 0 else float(A[s2])
+        except Exception:  # noqa: BLE001   (item assignment is judged by other properties)
+            ctx.skip("item assignment raised")
+        A2 = np.array(ref.den(data), dtype=float)
+        want = A.copy()
+        want[s1] = A[s1] + 1.0
+        if s2 != s1 and A[s2] == 0:
+            want[s2] = 2.0
+        if not np.array_equal(A2, want) or tuple(int(x) for x in data.shape) != shape:
+            ctx.skip("item assignment did not produce the wanted content")
+        ctx.label("data-pattern-changed" if not np.array_equal(A2 != 0, A != 0) else "data-values-changed")
+        Me, Ge, ie = _run(ctx, case, data, init, k, "call-on-edited-data", options=first)
+        le0, se0, _ = _guess_baseline(case, A2, Ge)
+        _check_result(ctx, case, A2, Me, ie, k, le0, se0)
+        if isinstance(data, ttb.sptensor):
+            fresh = ttb.sptensor(np.array(data.subs, copy=True), np.array(data.vals, copy=True), shape)
+        else:
+            fresh = ttb.tensor(np.array(data.data, copy=True, order="K"), shape)
+        Mf, _, i_f = _run(ctx, case, fresh, init, k, "call-on-fresh-copy-of-edited-data", options=first)
+        re_, rf = _outcome(Me, ie), _outcome(Mf, i_f)
+        ctx.check(_same_outcome(re_, rf), "edited-object-gives-result-of-fresh-object", _outcome_info(re_, rf))
+        return
     elif v == "other-data-between":
         # same call on the mirror image of the data (same shape, same number of stored entries, same values):
         # whatever the first call left behind must not leak into it - it has to satisfy the property on its own
@@ -623,7 +829,7 @@ def _guess_nearly_zero_at_a_count(case):
 PREDICATES = {
     "alg_is_pqnr": lambda case: case.get("alg") == "pqnr",
     "sparse_data_stores_explicit_zero": lambda case: case.get("holder") == "sparse" and case.get("dprov") == "explicit-zeros"
-    and len(case.get("zsubs", [])) > 0,
+    and (len(case.get("zsubs", [])) > 0 or bool(case.get("large"))),
     "pqnr_flat_gradient_row": lambda case: _dense_with_empty_slice(case) or _guess_nearly_zero_at_a_count(case),
     "guess_has_all_zero_row": _has_zero_row,
     "pqnr_mem_ge2_and_inner_ge2": lambda case: case.get("alg") == "pqnr" and case.get("lbfgsMem", 0) >= 2
